@@ -1,7 +1,268 @@
-//! Further operations (fixed-point conversion, readers, statistics, FIBEX).
+//! Further operations (statistics, fixed-point conversion, readers, FIBEX).
 use crate::ops::Outcome;
 use crate::wire::*;
+use dlt_core::dlt::*;
+use dlt_core::parse::DltParseError;
+use dlt_core::read::DltMessageReader;
+use dlt_core::statistics::common::{LevelDistribution, StatisticInfo, StatisticInfoCollector};
+use dlt_core::statistics::{collect_statistics, Statistic, StatisticCollector};
+use std::collections::BTreeMap;
+use std::panic::{catch_unwind, AssertUnwindSafe};
 
-pub fn run_case3(_prop: &str, op: u32, _toks: &[Tok]) -> Outcome {
-    panic!("unknown op {}", op)
+fn guarded<T>(f: impl FnOnce() -> T) -> Option<T> {
+    catch_unwind(AssertUnwindSafe(f)).ok()
+}
+
+#[derive(Clone, Debug, PartialEq)]
+struct Visit {
+    level: Option<LogLevel>,
+    ecu: Option<String>,
+    ext: Option<(String, String)>,
+    verbose: bool,
+}
+
+#[derive(Default)]
+struct Recording {
+    visits: Vec<Visit>,
+    inner: StatisticInfoCollector,
+}
+impl StatisticCollector for Recording {
+    fn collect_statistic(&mut self, s: Statistic) -> Result<(), DltParseError> {
+        self.visits.push(Visit {
+            level: s.log_level,
+            ecu: s.standard_header.ecu_id.clone(),
+            ext: s.extended_header.as_ref().map(|x| (x.application_id.clone(), x.context_id.clone())),
+            verbose: s.is_verbose,
+        });
+        self.inner.collect_statistic(s)
+    }
+}
+
+fn w_visit(w: &mut W, v: &Visit) {
+    match &v.level {
+        Some(l) => {
+            w.n(1);
+            w.log_level(l)
+        }
+        None => w.n(0),
+    }
+    w.opt_str(&v.ecu);
+    match &v.ext {
+        Some((a, c)) => {
+            w.n(1);
+            w.b(a.as_bytes());
+            w.b(c.as_bytes())
+        }
+        None => w.n(0),
+    }
+    w.bool(v.verbose);
+}
+
+fn ld_vec(d: &LevelDistribution) -> [usize; 8] {
+    [d.non_log, d.log_fatal, d.log_error, d.log_warning, d.log_info, d.log_debug, d.log_verbose, d.log_invalid]
+}
+
+fn w_idmap(w: &mut W, m: &[(String, LevelDistribution)]) {
+    let mut v: Vec<&(String, LevelDistribution)> = m.iter().collect();
+    v.sort_by(|a, b| a.0.as_bytes().cmp(b.0.as_bytes()));
+    w.n(v.len() as u128);
+    for (k, d) in v {
+        w.b(k.as_bytes());
+        for x in ld_vec(d) {
+            w.n(x as u128);
+        }
+    }
+}
+fn w_si(w: &mut W, s: &StatisticInfo) {
+    w_idmap(w, &s.app_ids);
+    w_idmap(w, &s.context_ids);
+    w_idmap(w, &s.ecu_ids);
+    w.bool(s.contained_non_verbose);
+}
+
+fn scan(bytes: &[u8], sh: bool) -> Option<(Vec<Visit>, StatisticInfo, bool)> {
+    guarded(|| {
+        let mut reader = DltMessageReader::new(bytes, sh);
+        let mut rec = Recording::default();
+        let ok = collect_statistics(&mut reader, &mut rec).is_ok();
+        (rec.visits, rec.inner.collect(), ok)
+    })
+}
+
+fn merge_all(mode: u128, parts: Vec<StatisticInfo>) -> StatisticInfo {
+    fn balanced(mut l: Vec<StatisticInfo>) -> StatisticInfo {
+        if l.is_empty() {
+            return StatisticInfo::new();
+        }
+        if l.len() == 1 {
+            return l.pop().unwrap();
+        }
+        let k = l.len() / 2;
+        let right = l.split_off(k);
+        let mut a = balanced(l);
+        a.merge(balanced(right));
+        a
+    }
+    match mode {
+        0 => {
+            let mut acc = StatisticInfo::new();
+            for p in parts {
+                acc.merge(p);
+            }
+            acc
+        }
+        1 => {
+            let mut acc = StatisticInfo::new();
+            for p in parts.into_iter().rev() {
+                acc.merge(p);
+            }
+            acc
+        }
+        2 => balanced(parts),
+        _ => {
+            // fold_right merge new l  =  merge p1 (merge p2 (... (merge pn new)))
+            let mut acc = StatisticInfo::new();
+            for mut p in parts.into_iter().rev() {
+                p.merge(acc);
+                acc = p;
+            }
+            acc
+        }
+    }
+}
+
+type Tally = BTreeMap<Vec<u8>, [usize; 8]>;
+fn bucket(m: &Message) -> usize {
+    match m.extended_header.as_ref().map(|x| &x.message_type) {
+        Some(MessageType::Log(l)) => match l {
+            LogLevel::Fatal => 1,
+            LogLevel::Error => 2,
+            LogLevel::Warn => 3,
+            LogLevel::Info => 4,
+            LogLevel::Debug => 5,
+            LogLevel::Verbose => 6,
+            LogLevel::Invalid(_) => 7,
+        },
+        _ => 0,
+    }
+}
+/// the independent tally of the property text
+fn tally(msgs: &[Message]) -> (Tally, Tally, Tally, bool) {
+    let (mut app, mut ctx, mut ecu) = (Tally::new(), Tally::new(), Tally::new());
+    let mut non_verbose = false;
+    for m in msgs {
+        let b = bucket(m);
+        let e = m.header.ecu_id.clone().unwrap_or_else(|| "NONE".to_string());
+        ecu.entry(e.into_bytes()).or_insert([0; 8])[b] += 1;
+        if let Some(x) = &m.extended_header {
+            app.entry(x.application_id.clone().into_bytes()).or_insert([0; 8])[b] += 1;
+            ctx.entry(x.context_id.clone().into_bytes()).or_insert([0; 8])[b] += 1;
+        }
+        let verbose = m.extended_header.as_ref().map(|x| x.verbose).unwrap_or(false);
+        non_verbose |= !verbose;
+    }
+    (app, ctx, ecu, non_verbose)
+}
+fn as_tally(m: &[(String, LevelDistribution)]) -> Option<Tally> {
+    let mut t = Tally::new();
+    for (k, d) in m {
+        if t.insert(k.as_bytes().to_vec(), ld_vec(d)).is_some() {
+            return None; // duplicate id
+        }
+    }
+    Some(t)
+}
+
+fn op_stats(toks: &[Tok], prop: &str) -> Outcome {
+    let mut r = R::new(toks);
+    let mode = r.n();
+    let nparts = r.n();
+    let mut parts: Vec<Vec<Message>> = vec![];
+    for _ in 0..nparts {
+        let n = r.n();
+        parts.push((0..n).map(|_| r.msg()).collect());
+    }
+    let all: Vec<Message> = parts.iter().flatten().cloned().collect();
+    let sh = all.first().map(|m| m.storage_header.is_some()).unwrap_or(false);
+    let wf = all.iter().all(|m| crate::genmsg::wf_message(m) && m.storage_header.is_some() == sh);
+    let prop = if wf { prop } else { "" };
+    let mut w = W::new();
+    let mut oracle = vec![];
+    let ser = |ms: &[Message]| -> Option<Vec<u8>> {
+        guarded(|| {
+            let mut b = vec![];
+            for m in ms {
+                b.extend_from_slice(&m.as_bytes());
+            }
+            b
+        })
+    };
+    let whole = ser(&all).and_then(|b| scan(&b, sh));
+    match whole {
+        None => w.n(0xdead),
+        Some((visits, si, ok)) => {
+            w.n(visits.len() as u128);
+            for v in &visits {
+                w_visit(&mut w, v);
+            }
+            w_si(&mut w, &si);
+            let part_infos: Option<Vec<StatisticInfo>> = parts.iter().map(|p| ser(p).and_then(|b| scan(&b, sh)).map(|x| x.1)).collect();
+            match part_infos.and_then(|pi| guarded(|| merge_all(mode, pi))) {
+                None => w.n(0xdead),
+                Some(merged) => {
+                    w_si(&mut w, &merged);
+                    if prop == "C10" {
+                        // visits: each message exactly once, in order, with its decoded headers
+                        let want: Vec<Visit> = all
+                            .iter()
+                            .map(|m| Visit {
+                                level: match m.extended_header.as_ref().map(|x| &x.message_type) {
+                                    Some(MessageType::Log(l)) => Some(*l),
+                                    _ => None,
+                                },
+                                ecu: m.header.ecu_id.clone(),
+                                ext: m.extended_header.as_ref().map(|x| (x.application_id.clone(), x.context_id.clone())),
+                                verbose: m.extended_header.as_ref().map(|x| x.verbose).unwrap_or(false),
+                            })
+                            .collect();
+                        if !ok {
+                            oracle.push(("scan_completes".into(), "collect_statistics returned an error on a well-formed stream".into()));
+                        }
+                        let same_visits = visits.len() == want.len()
+                            && visits.iter().zip(want.iter()).all(|(a, b)| {
+                                let mut wa = W::new();
+                                w_visit(&mut wa, a);
+                                let mut wb = W::new();
+                                w_visit(&mut wb, b);
+                                wa.0 == wb.0
+                            });
+                        if !same_visits {
+                            oracle.push(("visits_each_once".into(), format!("{} visits for {} messages, or headers differ", visits.len(), want.len())));
+                        }
+                        let (ta, tc, te, nv) = tally(&all);
+                        let got = (as_tally(&si.app_ids), as_tally(&si.context_ids), as_tally(&si.ecu_ids));
+                        if got != (Some(ta.clone()), Some(tc.clone()), Some(te.clone())) || si.contained_non_verbose != nv {
+                            oracle.push(("equals_tally".into(), "collector result differs from the independent tally".into()));
+                        }
+                        let total: usize = si.ecu_ids.iter().map(|(_, d)| ld_vec(d).iter().sum::<usize>()).sum();
+                        if total != all.len() {
+                            oracle.push(("ecu_totals".into(), format!("ECU totals {} for {} messages", total, all.len())));
+                        }
+                        let gm = (as_tally(&merged.app_ids), as_tally(&merged.context_ids), as_tally(&merged.ecu_ids));
+                        if gm != (Some(ta), Some(tc), Some(te)) || merged.contained_non_verbose != nv {
+                            oracle.push(("merge_is_sum".into(), format!("merging the parts (mode {}) differs from the statistics of the whole", mode)));
+                        }
+                    }
+                }
+            }
+        }
+    }
+    Outcome { result: w.0, oracle }
+}
+
+pub fn run_case3(prop: &str, op: u32, toks: &[Tok]) -> Outcome {
+    match op {
+        32 => op_stats(toks, prop),
+        _ => crate::ops4::run_case4(prop, op, toks),
+    }
 }
